@@ -5,6 +5,7 @@ package scen
 
 import (
 	"context"
+	"encoding/json"
 	"fmt"
 	"math/rand"
 	"sort"
@@ -452,3 +453,13 @@ func SortedKeys[V any](m map[string]V) []string {
 }
 
 var _ = strings.Join
+
+// ToUnstructured converts a typed API value to its JSON map form.
+func ToUnstructured(v any) (map[string]any, error) {
+	b, err := json.Marshal(v)
+	if err != nil {
+		return nil, err
+	}
+	out := map[string]any{}
+	return out, json.Unmarshal(b, &out)
+}
